@@ -252,6 +252,80 @@ def session_history(seed):
     return {"records": cap.records, "messages": msgs, "secrets": sorted(secrets), "requests": len(frames), "sample": None}
 
 
+def client_config_history(seed):
+    """The CLIENT and its account password: ProxyKmipClient / KMIPProxy built from configuration files and from
+    arguments, with passwords of every awkward shape (per cent signs and %(name)s interpolation syntax, quotes, spaces,
+    '#' and ';', non-ASCII, very long), opened against an in-process server loop and used for requests that carry the
+    credential; the records at INFO and above must not contain the password."""
+    import logging as lg
+    import tempfile
+    import shutil
+    import impl_e2e
+    from kmip.pie.client import ProxyKmipClient
+    from kmip.services.kmip_client import KMIPProxy
+    from kmip.core import enums
+    r = random.Random(seed)
+    lg.disable(lg.NOTSET)
+    cap = Capture()
+    root = lg.getLogger()
+    root.addHandler(cap)
+    root.setLevel(lg.INFO)
+    lg.getLogger("kmip").setLevel(lg.INFO)
+    d = tempfile.mkdtemp(prefix="c20conf")
+    secrets, msgs = set(), []
+    n = 0
+
+    def word(k):
+        return "".join(chr(r.randrange(97, 123)) for _ in range(k))
+    L = impl_e2e.Loopback()
+    lg.disable(lg.NOTSET)               # (Loopback silences logging while it sets the server up)
+    try:
+        shapes = [lambda w: w, lambda w: "%" + w, lambda w: w + "%", lambda w: w[:6] + "%" + w[6:],
+                  lambda w: "%(" + w + ")s", lambda w: w[:5] + "%(" + w[5:] + ")s", lambda w: w + "%%" + w[:4],
+                  lambda w: '"' + w + '"', lambda w: w[:6] + " " + w[6:], lambda w: w[:6] + "#" + w[6:],
+                  lambda w: w[:6] + ";" + w[6:], lambda w: w + "=" + w[:5], lambda w: w * 12,
+                  lambda w: w[:6] + "\u00e9" + w[6:], lambda w: "$" + w, lambda w: "[" + w + "]"]
+        for k, shape in enumerate(shapes):
+            w = word(14)
+            pw = shape(w)
+            secrets.add(w.encode().hex())                 # the random core of the password is the canary
+            path = os.path.join(d, "pykmip-%d.conf" % k)
+            with open(path, "w", encoding="utf-8") as f:
+                f.write("[client]\nhost=127.0.0.1\nport=5696\nkeyfile=None\ncertfile=None\ncert_reqs=CERT_NONE\n"
+                        "ssl_version=PROTOCOL_SSLv23\nca_certs=None\ndo_handshake_on_connect=True\n"
+                        "suppress_ragged_eofs=True\nusername=user%d\npassword=%s\n" % (k, pw))
+            for build in (lambda: ProxyKmipClient(config="client", config_file=path),
+                          lambda: KMIPProxy(config="client", config_file=path),
+                          lambda: ProxyKmipClient(username="user%d" % k, password=pw, config_file=path),
+                          lambda: ProxyKmipClient(config="nosuchsection", config_file=path)):
+                n += 1
+                try:
+                    c = build()
+                except Exception as e:
+                    msgs.append(str(e))
+                    continue
+                try:
+                    px = c.proxy if hasattr(c, "proxy") else c
+                    px.protocol = impl_e2e.Transport(L)
+                    if hasattr(c, "_is_open"):
+                        c._is_open = True
+                        c.create(enums.CryptographicAlgorithm.AES, 128)
+                        try:
+                            c.get("31337")
+                        except Exception as e:
+                            msgs.append(str(e))
+                    else:
+                        px.query(query_functions=[enums.QueryFunction.QUERY_OPERATIONS])
+                    n += 2
+                except Exception as e:
+                    msgs.append(str(e))
+    finally:
+        root.removeHandler(cap)
+        L.close()
+        shutil.rmtree(d, ignore_errors=True)
+    return {"records": cap.records, "messages": msgs, "secrets": sorted(secrets), "requests": n, "sample": None}
+
+
 def run(ctx):
     import multiprocessing
     import gen_tables
@@ -263,6 +337,7 @@ def run(ctx):
         res = pool.map(engine_history, [(ctx.seed * 100003 + i, 30) for i in range(n)], chunksize=2)
         res += pool.map(e2e_history, [ctx.seed * 977 + i for i in range(16 if ctx.tier == "quick" else 200)])
         res += pool.map(session_history, [ctx.seed * 613 + i for i in range(8 if ctx.tier == "quick" else 100)])
+        res += pool.map(client_config_history, [ctx.seed * 389 + i for i in range(4 if ctx.tier == "quick" else 60)])
     nrec = nmsg = nsec = nreq = 0
     fired = set()
     for k, r in enumerate(res):
